@@ -158,7 +158,7 @@ structure LeafGood (F : FloatLib) (l : Leaf) : Prop where
   /-- starts with a non-blank character … -/
   head : ∀ x, skipWs (l.toLucene F ++ x) = l.toLucene F ++ x
   /-- … that is not a modifier -/
-  noMod : ∀ x, modifiers (l.toLucene F ++ x) = none
+  noMod : ∀ rest, ItemEnd rest → modifiers (l.toLucene F ++ rest) = none
   nonEmpty : l.toLucene F ≠ []
 
 /-! ### small parser facts -/
@@ -375,7 +375,7 @@ theorem itemRT_leaf (F : FloatLib) (l : Leaf) (hg : LeafGood F l) : ItemRT F (.l
     obtain ⟨f, rfl⟩ : ∃ f, fuel = f + 2 := ⟨fuel - 2, by simp [sz] at hf; omega⟩
     obtain ⟨pc, hc, hv⟩ := hg.clause
     refine ⟨.clause (some (op == .or)) none pc, ?_, pushes_clause F _ pc _ hv⟩
-    have := item_later_plain op (f + 1) (l.toLucene F) rest pc (hg.noMod rest) (hg.head rest) (hc f rest hr)
+    have := item_later_plain op (f + 1) (l.toLucene F) rest pc (hg.noMod rest hr) (hg.head rest) (hc f rest hr)
     simpa [itemText, clauseText] using this
   head := by intro x; simpa [itemText, clauseText] using hg.head x
   nonEmpty := by simpa [itemText, clauseText] using hg.nonEmpty
